@@ -1126,6 +1126,23 @@ func ResolveConst(v ssa.Value, env Env) (string, bool) {
 	case *ssa.Const:
 		return constText(x), true
 	case *ssa.BinOp:
+		// an error built by fmt.Errorf / errors.New on this path, compared with nil
+		if x.Op == token.EQL || x.Op == token.NEQ {
+			var o ssa.Value
+			if k, ok := x.Y.(*ssa.Const); ok && k.IsNil() {
+				o = Resolve(x.X, env)
+			} else if k, ok := x.X.(*ssa.Const); ok && k.IsNil() {
+				o = Resolve(x.Y, env)
+			}
+			if call, ok := o.(*ssa.Call); ok {
+				if g := call.Call.StaticCallee(); g != nil && g.Pkg != nil && ((g.Pkg.Pkg.Path() == "fmt" && g.Name() == "Errorf") || (g.Pkg.Pkg.Path() == "errors" && g.Name() == "New")) {
+					if x.Op == token.EQL {
+						return "false", true
+					}
+					return "true", true
+				}
+			}
+		}
 		// a counter compared with zero: n == 0 is false once n is (something non-negative) + k, k > 0
 		var other ssa.Value
 		if isZeroConst(x.Y) {
